@@ -5,4 +5,400 @@ import CasbinVerif.Spec.SyncExpected
 namespace Casbin.C12
 open Casbin.Sync
 
+/-! ### the discipline composes -/
+
+theorem wellLockedFrom_append (h : Held) (a b : List Ev)
+    (ha : wellLockedFrom h a = true) (hb : wellLocked b = true) :
+    wellLockedFrom h (a ++ b) = true := by
+  induction a generalizing h with
+  | nil =>
+      cases h <;> simp [wellLockedFrom] at ha
+      simpa [wellLocked] using hb
+  | cons e es ih =>
+      cases h <;> cases e with
+      | acq m => cases m <;> simp_all [wellLockedFrom]
+      | rel => simp_all [wellLockedFrom]
+      | acc b => cases b <;> simp_all [wellLockedFrom]
+
+theorem wellLocked_flatten (bodies : List (List Ev)) (h : ∀ b ∈ bodies, wellLocked b = true) :
+    wellLocked bodies.flatten = true := by
+  induction bodies with
+  | nil => rfl
+  | cons b bs ih =>
+      rw [List.flatten_cons]
+      exact wellLockedFrom_append .none b _ (h b (by simp))
+        (ih (fun b' hb' => h b' (by simp [hb'])))
+
+/-- programs made of well-locked bodies are well-locked as a whole (`C12.Disciplined` unfolded) -/
+theorem disciplined_wellLocked {progs : List (List Ev)}
+    (h : ∀ p ∈ progs, ∃ bodies : List (List Ev), (∀ b ∈ bodies, wellLocked b = true) ∧ p = bodies.flatten) :
+    ∀ p ∈ progs, wellLocked p = true := by
+  intro p hp
+  rcases h p hp with ⟨bodies, hb, rfl⟩
+  exact wellLocked_flatten bodies hb
+
+/-! ### what the head of a well-locked remainder can be -/
+
+theorem wl_nil {h : Held} (hw : wellLockedFrom h [] = true) : h = .none := by
+  cases h <;> simp [wellLockedFrom] at hw <;> rfl
+
+theorem wl_acq {h : Held} {m : Mode} {es : List Ev} (hw : wellLockedFrom h (.acq m :: es) = true) :
+    h = .none := by
+  cases h <;> cases m <;> simp [wellLockedFrom] at hw <;> rfl
+
+theorem wl_acqR {h : Held} {es : List Ev} (hw : wellLockedFrom h (.acq .R :: es) = true) :
+    wellLockedFrom .r es = true := by
+  cases h <;> simp [wellLockedFrom] at hw <;> exact hw
+
+theorem wl_acqW {h : Held} {es : List Ev} (hw : wellLockedFrom h (.acq .W :: es) = true) :
+    wellLockedFrom .w es = true := by
+  cases h <;> simp [wellLockedFrom] at hw <;> exact hw
+
+theorem wl_rel {h : Held} {es : List Ev} (hw : wellLockedFrom h (.rel :: es) = true) :
+    h ≠ .none ∧ wellLockedFrom .none es = true := by
+  cases h <;> simp [wellLockedFrom] at hw <;> simp [hw]
+
+theorem wl_acc {h : Held} {b : Bool} {es : List Ev} (hw : wellLockedFrom h (.acc b :: es) = true) :
+    h ≠ .none ∧ (b = true → h = .w) ∧ wellLockedFrom h es = true := by
+  cases h <;> cases b <;> simp [wellLockedFrom] at hw <;> simp [hw]
+
+/-! ### the invariant -/
+
+/-- what thread `t` holds according to the lock -/
+def heldOf (l : LockSt) (t : Nat) : Held :=
+  if l.writer = some t then .w else if t ∈ l.readers then .r else .none
+
+structure Inv (c : Config) : Prop where
+  /-- every thread's remaining program is well-locked from what the lock says it holds
+      (threads that do not exist hold nothing) -/
+  wl : ∀ t, wellLockedFrom (heldOf c.lock t) (c.todo[t]?.getD []) = true
+  excl : ∀ t, c.lock.writer = some t → c.lock.readers = []
+  nodup : c.lock.readers.Nodup
+  pend : ∀ t ∈ c.lock.pending, ∃ rest, c.todo[t]? = some (.acq .W :: rest)
+
+theorem heldOf_none {l : LockSt} {t : Nat} (h : heldOf l t = .none) :
+    l.writer ≠ some t ∧ t ∉ l.readers := by
+  unfold heldOf at h
+  split at h
+  · cases h
+  · split at h
+    · cases h
+    · exact ⟨by assumption, by assumption⟩
+
+theorem heldOf_ne_none {l : LockSt} {t : Nat} (h : heldOf l t ≠ .none) :
+    l.writer = some t ∨ t ∈ l.readers := by
+  unfold heldOf at h
+  split at h
+  · left; assumption
+  · split at h
+    · right; assumption
+    · exact absurd rfl h
+
+theorem heldOf_w {l : LockSt} {t : Nat} (h : heldOf l t = .w) : l.writer = some t := by
+  unfold heldOf at h
+  split at h
+  · assumption
+  · split at h <;> cases h
+
+theorem inv_initial (progs : List (List Ev)) (h : ∀ p ∈ progs, wellLocked p = true) :
+    Inv (initial progs) := by
+  refine ⟨?_, ?_, ?_, ?_⟩
+  · intro t
+    have : heldOf (initial progs).lock t = .none := by simp [heldOf, initial]
+    rw [this]
+    show wellLockedFrom .none (progs[t]?.getD []) = true
+    cases ht : progs[t]? with
+    | none => rfl
+    | some p => exact h p (List.mem_of_getElem? ht)
+  · intro t ht; simp [initial] at ht
+  · simp [initial]
+  · intro t ht; simp [initial] at ht
+
+/-- the remaining program of another thread is not touched -/
+theorem todo_set_ne (todo : List (List Ev)) (t u : Nat) (rest : List Ev) (hne : u ≠ t) :
+    (todo.set t rest)[u]? = todo[u]? := by
+  rw [List.getElem?_set_ne (Ne.symm hne)]
+
+theorem todo_set_self (todo : List (List Ev)) (t : Nat) (e : Ev) (rest : List Ev)
+    (ht : todo[t]? = some (e :: rest)) : (todo.set t rest)[t]? = some rest := by
+  have hlt : t < todo.length := by
+    rcases List.getElem?_eq_some_iff.mp ht with ⟨hlt, _⟩; exact hlt
+  rw [List.getElem?_set_self hlt]
+
+theorem inv_step {c c' : Config} {t : Nat} (hi : Inv c) (hs : step c t = some c') : Inv c' := by
+  unfold step at hs
+  split at hs
+  next e rest ht =>
+    split at hs
+    next hen =>
+      cases hs
+      have hwt := hi.wl t
+      rw [ht] at hwt
+      simp only [Option.getD_some] at hwt
+      have hself := todo_set_self c.todo t e rest ht
+      -- a pending thread is about to `Lock()`, so a thread doing anything else is not pending
+      have hpend_other : ∀ u ∈ c.lock.pending, u ≠ t →
+          ∃ r, (c.todo.set t rest)[u]? = some (.acq .W :: r) := by
+        intro u hu hne
+        rw [todo_set_ne _ _ _ _ hne]; exact hi.pend u hu
+      have hnotpend : e ≠ .acq .W → t ∉ c.lock.pending := by
+        intro hne hmem
+        rcases hi.pend t hmem with ⟨r, hr⟩
+        rw [ht] at hr
+        cases hr
+        exact hne rfl
+      cases e with
+      | acq m =>
+          have hnone := wl_acq hwt
+          have ⟨hwr, hrd⟩ := heldOf_none hnone
+          cases m with
+          | R =>
+              have hw' := wl_acqR hwt
+              simp only [enabled, Bool.and_eq_true, Option.isNone_iff_eq_none] at hen
+              refine ⟨?_, ?_, ?_, ?_⟩
+              · intro u
+                by_cases hut : u = t
+                · subst hut
+                  simp only [hself, Option.getD_some]
+                  have : heldOf (applyLock c.lock u (.acq .R)) u = .r := by
+                    simp [heldOf, applyLock, hen.1]
+                  rw [this]; exact hw'
+                · simp only [todo_set_ne _ _ _ _ hut]
+                  have : heldOf (applyLock c.lock t (.acq .R)) u = heldOf c.lock u := by
+                    simp [heldOf, applyLock, hut]
+                  rw [this]; exact hi.wl u
+              · intro u hu
+                simp [applyLock, hen.1] at hu
+              · simp only [applyLock, List.nodup_cons]
+                exact ⟨hrd, hi.nodup⟩
+              · intro u hu
+                have hu' : u ∈ c.lock.pending := by simpa [applyLock] using hu
+                have hne : u ≠ t := by
+                  intro h; subst h; exact hnotpend (by simp) hu'
+                exact hpend_other u hu' hne
+          | W =>
+              have hw' := wl_acqW hwt
+              simp only [enabled, Bool.and_eq_true, Option.isNone_iff_eq_none,
+                List.isEmpty_iff] at hen
+              refine ⟨?_, ?_, ?_, ?_⟩
+              · intro u
+                by_cases hut : u = t
+                · subst hut
+                  simp only [hself, Option.getD_some]
+                  have : heldOf (applyLock c.lock u (.acq .W)) u = .w := by
+                    simp [heldOf, applyLock]
+                  rw [this]; exact hw'
+                · simp only [todo_set_ne _ _ _ _ hut]
+                  have : heldOf (applyLock c.lock t (.acq .W)) u = heldOf c.lock u := by
+                    have : t ≠ u := Ne.symm hut
+                    simp [heldOf, applyLock, hen.1, hen.2, this]
+                  rw [this]; exact hi.wl u
+              · intro u _
+                simp [applyLock, hen.2]
+              · simpa [applyLock] using hi.nodup
+              · intro u hu
+                have hu' : u ∈ c.lock.pending ∧ u ≠ t := by
+                  simpa [applyLock] using hu
+                exact hpend_other u hu'.1 hu'.2
+      | rel =>
+          have ⟨hne, hw'⟩ := wl_rel hwt
+          have htp : t ∉ c.lock.pending := hnotpend (by simp)
+          by_cases hwr : c.lock.writer = some t
+          · have hrd := hi.excl t hwr
+            refine ⟨?_, ?_, ?_, ?_⟩
+            · intro u
+              by_cases hut : u = t
+              · subst hut
+                simp only [hself, Option.getD_some]
+                have : heldOf (applyLock c.lock u .rel) u = .none := by
+                  simp [heldOf, applyLock, hwr, hrd]
+                rw [this]; exact hw'
+              · simp only [todo_set_ne _ _ _ _ hut]
+                have : heldOf (applyLock c.lock t .rel) u = heldOf c.lock u := by
+                  have : t ≠ u := Ne.symm hut
+                  simp [heldOf, applyLock, hwr, hrd, this]
+                rw [this]; exact hi.wl u
+            · intro u hu
+              simp [applyLock, hwr] at hu
+            · simpa [applyLock, hwr] using hi.nodup
+            · intro u hu
+              have hu' : u ∈ c.lock.pending := by simpa [applyLock, hwr] using hu
+              have hne : u ≠ t := by
+                intro h; subst h; exact htp hu'
+              exact hpend_other u hu' hne
+          · have hmem : t ∈ c.lock.readers := by
+              rcases heldOf_ne_none hne with h | h
+              · exact absurd h hwr
+              · exact h
+            refine ⟨?_, ?_, ?_, ?_⟩
+            · intro u
+              by_cases hut : u = t
+              · subst hut
+                simp only [hself, Option.getD_some]
+                have : heldOf (applyLock c.lock u .rel) u = .none := by
+                  have : u ∉ c.lock.readers.erase u := fun h => (List.Nodup.mem_erase_iff hi.nodup).mp h |>.1 rfl
+                  simp [heldOf, applyLock, hwr, this]
+                rw [this]; exact hw'
+              · simp only [todo_set_ne _ _ _ _ hut]
+                have : heldOf (applyLock c.lock t .rel) u = heldOf c.lock u := by
+                  simp [heldOf, applyLock, hwr, List.mem_erase_of_ne hut]
+                rw [this]; exact hi.wl u
+            · intro u hu
+              have hu' : c.lock.writer = some u := by simpa [applyLock, hwr] using hu
+              have := hi.excl u hu'
+              simp [applyLock, hwr, this]
+            · have := hi.nodup.erase t
+              simpa [applyLock, hwr] using this
+            · intro u hu
+              have hu' : u ∈ c.lock.pending := by simpa [applyLock, hwr] using hu
+              have hne : u ≠ t := by
+                intro h; subst h; exact htp hu'
+              exact hpend_other u hu' hne
+      | acc b =>
+          have ⟨_, _, hw'⟩ := wl_acc hwt
+          have htp : t ∉ c.lock.pending := hnotpend (by simp)
+          refine ⟨?_, ?_, ?_, ?_⟩
+          · intro u
+            by_cases hut : u = t
+            · subst hut
+              simp only [hself, Option.getD_some]
+              exact hw'
+            · simp only [todo_set_ne _ _ _ _ hut]
+              exact hi.wl u
+          · exact hi.excl
+          · exact hi.nodup
+          · intro u hu
+            have hu' : u ∈ c.lock.pending := hu
+            have hne : u ≠ t := by
+              intro h; subst h; exact htp hu'
+            exact hpend_other u hu' hne
+    next => cases hs
+  next => cases hs
+
+theorem inv_act {c c' : Config} {a : Act} (hi : Inv c) (hs : act c a = some c') : Inv c' := by
+  cases a with
+  | go t => exact inv_step hi hs
+  | announce t =>
+      simp only [act] at hs
+      split at hs
+      next rest ht =>
+        split at hs
+        · cases hs
+        · cases hs
+          refine ⟨hi.wl, hi.excl, hi.nodup, ?_⟩
+          intro u hu
+          have hu' : u = t ∨ u ∈ c.lock.pending := by simpa using hu
+          rcases hu' with h | h
+          · subst h; exact ⟨rest, ht⟩
+          · exact hi.pend u h
+      next => cases hs
+
+theorem inv_run {c c' : Config} {sched : List Act} (hi : Inv c) (hr : run c sched = some c') :
+    Inv c' := by
+  induction sched generalizing c with
+  | nil => simp only [run] at hr; cases hr; exact hi
+  | cons a as ih =>
+      simp only [run] at hr
+      split at hr
+      next c₁ h₁ => exact ih (inv_act hi h₁) hr
+      next => cases hr
+
+/-! ### what the invariant buys -/
+
+theorem inv_not_racy {c : Config} (hi : Inv c) : ¬ racy c := by
+  -- the asymmetric core: a writing access excludes any other access
+  have core : ∀ (t₁ t₂ : Nat) (w₂ : Bool) (r₁ r₂ : List Ev), t₁ ≠ t₂ →
+      c.todo[t₁]? = some (Ev.acc true :: r₁) → c.todo[t₂]? = some (Ev.acc w₂ :: r₂) → False := by
+    intro t₁ t₂ w₂ r₁ r₂ hne h₁ h₂
+    have hw₁ := hi.wl t₁
+    have hw₂ := hi.wl t₂
+    rw [h₁] at hw₁; rw [h₂] at hw₂
+    simp only [Option.getD_some] at hw₁ hw₂
+    have ⟨_, hW, _⟩ := wl_acc hw₁
+    have ⟨hN, _, _⟩ := wl_acc hw₂
+    have hwr := heldOf_w (hW rfl)
+    rcases heldOf_ne_none hN with h | h
+    · rw [hwr] at h; cases h; exact hne rfl
+    · rw [hi.excl t₁ hwr] at h; cases h
+  rintro ⟨t₁, t₂, w₁, w₂, r₁, r₂, hne, h₁, h₂, hw⟩
+  rcases hw with hw | hw
+  · subst hw; exact core t₁ t₂ w₂ r₁ r₂ hne h₁ h₂
+  · subst hw; exact core t₂ t₁ w₁ r₂ r₁ (Ne.symm hne) h₂ h₁
+
+theorem step_isSome_of_enabled {c : Config} {t : Nat} {e : Ev} {rest : List Ev}
+    (ht : c.todo[t]? = some (e :: rest)) (hen : enabled c.lock t e = true) :
+    step c t ≠ none := by
+  simp [step, ht, hen]
+
+theorem inv_not_deadlocked {c : Config} (hi : Inv c) : ¬ deadlocked c := by
+  rintro ⟨hnf, hstuck⟩
+  -- a thread that holds the lock can always move
+  have hfree : ∀ u, heldOf c.lock u = .none := by
+    intro u
+    refine Classical.byContradiction fun hne => ?_
+    have hw := hi.wl u
+    cases hu : c.todo[u]? with
+    | none =>
+        rw [hu] at hw
+        exact hne (wl_nil hw)
+    | some p =>
+        rw [hu] at hw
+        simp only [Option.getD_some] at hw
+        cases p with
+        | nil => exact hne (wl_nil hw)
+        | cons e rest =>
+            cases e with
+            | acq m => exact hne (wl_acq hw)
+            | rel => exact step_isSome_of_enabled hu rfl (hstuck u)
+            | acc b => exact step_isSome_of_enabled hu rfl (hstuck u)
+  have hwn : c.lock.writer = none := by
+    cases hw : c.lock.writer with
+    | none => rfl
+    | some u => exact absurd hw (heldOf_none (hfree u)).1
+  have hrn : c.lock.readers = [] := by
+    cases hr : c.lock.readers with
+    | nil => rfl
+    | cons u us =>
+        have := (heldOf_none (hfree u)).2
+        rw [hr] at this
+        exact absurd (List.mem_cons_self) this
+  -- a `Lock()` is enabled for everybody
+  have henW : ∀ u, enabled c.lock u (.acq .W) = true := by
+    intro u; simp [enabled, hwn, hrn]
+  -- some thread has work left
+  have : ∃ (t : Nat) (e : Ev) (rest : List Ev), c.todo[t]? = some (e :: rest) := by
+    refine Classical.byContradiction fun hno => hnf ?_
+    intro p hp
+    rcases List.getElem?_of_mem hp with ⟨t, ht⟩
+    cases p with
+    | nil => rfl
+    | cons e rest => exact absurd ⟨t, e, rest, ht⟩ hno
+  rcases this with ⟨t, e, rest, ht⟩
+  have hw := hi.wl t
+  rw [ht, hfree t] at hw
+  simp only [Option.getD_some] at hw
+  cases e with
+  | acq m =>
+      cases m with
+      | W => exact step_isSome_of_enabled ht (henW t) (hstuck t)
+      | R =>
+          cases hp : c.lock.pending.filter (· != t) with
+          | nil =>
+              have : enabled c.lock t (.acq .R) = true := by simp [enabled, hwn, hp]
+              exact step_isSome_of_enabled ht this (hstuck t)
+          | cons u us =>
+              have hu : u ∈ c.lock.pending.filter (· != t) := by rw [hp]; exact List.mem_cons_self
+              have hu' := (List.mem_filter.mp hu).1
+              rcases hi.pend u hu' with ⟨r, hr⟩
+              exact step_isSome_of_enabled hr (henW u) (hstuck u)
+  | rel => exact step_isSome_of_enabled ht rfl (hstuck t)
+  | acc b => exact step_isSome_of_enabled ht rfl (hstuck t)
+
+/-! ### from the per-wrapper check to the discipline -/
+
+theorem ok_wellLocked {table : List Wrapper} {w : Wrapper} (h : w.ok table = true) :
+    wellLocked w.prog = true := by
+  unfold Wrapper.ok at h
+  exact (Bool.and_eq_true _ _ ▸ h : _ ∧ _).2
+
 end Casbin.C12
